@@ -425,6 +425,9 @@ def pad(
             other_component=other_component,
         )
     else:
+        # without face connections a vector component is padded like a scalar
+        if isinstance(data, dict):
+            (data,) = data.values()
         da_padded = _pad_basic(data, grid, padding_width, padding, fill_value)  # type: ignore
 
     return da_padded
